@@ -403,7 +403,7 @@ func TestC09Exhaustive(t *testing.T) {
 				c := base
 				c.Zero = i%2 == 1
 				c.Ops = ops
-				if d := c09RunHistory(&c, suite, ref, rec); d != nil {
+				if d := safely(func() *Disc { return c09RunHistory(&c, suite, ref, rec) }); d != nil {
 					mu.Lock()
 					if first == nil || len(c.Ops) < len(fc.Ops) {
 						first, fc = d, c
